@@ -265,10 +265,10 @@ class ListingParser(LineParser):
         sample_lines = []
 
         for line in lines:
+            sample_lines.append(line)
+
             if len(sample_lines) > 100:
                 break
-
-            sample_lines.append(line)
 
         lines = itertools.chain(sample_lines, lines)
 
